@@ -25,7 +25,6 @@ EXPECTED_MISS = {
     "C09-E": "shutdown waits on a task group its own caller still holds: WaitGroup counts are a history property, not modelled",
     "C11-C": "ReleaseClients releases only the first client of a row: 'every client is released' needs a model of Client.Release's effect; the loop annotations are dropped and the remaining lock discipline still holds",
     "C11-D": "Join no longer marks the promise as pending join while parked: promise state machine across goroutines, not under contract",
-    "C14-F": "Message.Reset keeps map entry 0: a contract for Reset was written but its loop invariant does not survive Client.Release (arbitrary Shutdown hooks) without a package-wide callback frame assumption on Message; not committed",
     "C16-D": "List.SetStruct fast path bypasses copyStruct: copyStruct's zero extension is a point assertion, not a postcondition a caller could be checked against (writePtr's frame is unknown)",
     "C19-C": "value correspondence of pogs insertField is not under contract (a first detection was an engine artifact - an oversized cover query counted as a failure - and was removed)",
     "C19-D": "field resolution order of pogs mapStruct is not under contract",
